@@ -1,12 +1,12 @@
 P = __file__.rsplit("/units/", 1)[0] + "/prelude/"
 UNIT = dict(
     id="c08_recurse_player",
-    prelude=["floats.rs"],
-    canary_use="broadcast use fl; ax_obeys();",
+    prelude=["floats.rs", "ideal.rs"],
+    canary_use="broadcast use fl; broadcast use ideal; ax_obeys(); ax_rv_lits();",
     expect=[("src/solve/vanilla.rs", r"trait Add \{\s*fn add\(self, other: f64\);\s*\}"),
             ("src/solve/vanilla.rs", r"&mut \*\*cum_regret,")],
     assumptions=[
-        "uninterpreted floats (operand order as written)",
+        "idealised-real float mode (harmless reorderings of operands do not disturb the proof); the reach vector handed to the continuation is compared structurally in its untouched entry and by value in the multiplied entry",
         "TYPE-SUBST: `cum_regret: impl IntoIterator<Item = impl Add>` is instantiated at `&mut [f64]` (the single-threaded instance: recurse_single passes `&mut **cum_regret`), `.into_iter()` on it is `.iter_mut()`; the AtomicF64 instance (recurse_multi) is NOT covered",
         "R11: `rec: impl Fn(..)` named as a generic parameter; the continuation may be called on every child with every reach vector (its precondition is assumed), its results u_a are whatever it returns",
         "struct invariant actions.len() == strat.len() == cum_regret.len() assumed at entry (wf_game + RegretInfoset::new)",
@@ -26,20 +26,28 @@ UNIT = dict(
 }
 // counterfactual weight of the acting player's regrets: opponent reach x chance reach, negated for
 // player two (payoffs are player one's)
-pub open spec fn mult_spec(num: PlayerNum, p_chance: f64, p_player: [f64; 2]) -> f64 {
-    match num { PlayerNum::One => fmul(p_chance, p_player[1]), PlayerNum::Two => fmul(fneg(p_player[0]), p_chance) }
+pub open spec fn mult_spec(num: PlayerNum, p_chance: f64, p_player: [f64; 2]) -> real {
+    match num { PlayerNum::One => rv(p_chance) * rv(p_player[1]), PlayerNum::Two => 0real - rv(p_player[0]) * rv(p_chance) }
 }
 // reach vector handed to the continuation of action a: only the acting player's entry is multiplied by sigma_a
-pub open spec fn pnext_spec(num: PlayerNum, p_player: [f64; 2], prob: f64) -> [f64; 2] {
-    match num { PlayerNum::One => [fmul(p_player[0], prob), p_player[1]], PlayerNum::Two => [p_player[0], fmul(p_player[1], prob)] }
+pub open spec fn pnext_ok(num: PlayerNum, p_player: [f64; 2], prob: f64, p_next: [f64; 2]) -> bool {
+    match num {
+        PlayerNum::One => rv(p_next[0]) == rv(p_player[0]) * rv(prob) && p_next[1] == p_player[1],
+        PlayerNum::Two => p_next[0] == p_player[0] && rv(p_next[1]) == rv(p_player[1]) * rv(prob),
+    }
 }
-pub open spec fn exp_one(strat: Seq<f64>, us: Seq<f64>, k: int) -> f64 decreases k {
-    if k <= 0 { 0.0f64 } else { fadd(exp_one(strat, us, k - 1), fmul(strat[k - 1], us[k - 1])) }
+// the continuation was called on `node` with a reach vector in which ONLY the acting player's entry is
+// multiplied by the action's probability, and returned u
+pub open spec fn called_ok<F: Fn(&Node, [f64; 2]) -> f64>(rec: F, node: Node, num: PlayerNum, p_player: [f64; 2], prob: f64, u: f64) -> bool {
+    exists|pn: [f64; 2]| pnext_ok(num, p_player, prob, pn) && #[trigger] rec.ensures((&node, pn), u)
 }
-pub open spec fn exp_cf(strat: Seq<f64>, us: Seq<f64>, mult: f64, k: int) -> f64 decreases k {
-    if k <= 0 { 0.0f64 } else { fadd(exp_cf(strat, us, mult, k - 1), fmul(fmul(us[k - 1], mult), strat[k - 1])) }
+pub open spec fn exp_one(strat: Seq<f64>, us: Seq<f64>, k: int) -> real decreases k {
+    if k <= 0 { 0real } else { exp_one(strat, us, k - 1) + rv(strat[k - 1]) * rv(us[k - 1]) }
 }
-pub proof fn lemma_exp_prefix(st: Seq<f64>, a: Seq<f64>, b: Seq<f64>, m: f64, k: int)
+pub open spec fn exp_cf(strat: Seq<f64>, us: Seq<f64>, mult: real, k: int) -> real decreases k {
+    if k <= 0 { 0real } else { exp_cf(strat, us, mult, k - 1) + rv(us[k - 1]) * mult * rv(strat[k - 1]) }
+}
+pub proof fn lemma_exp_prefix(st: Seq<f64>, a: Seq<f64>, b: Seq<f64>, m: real, k: int)
     requires 0 <= k <= a.len(), k <= b.len(), forall|i: int| 0 <= i < k ==> a[i] == b[i],
     ensures exp_one(st, a, k) == exp_one(st, b, k), exp_cf(st, a, m, k) == exp_cf(st, b, m, k),
     decreases k
@@ -47,8 +55,8 @@ pub proof fn lemma_exp_prefix(st: Seq<f64>, a: Seq<f64>, b: Seq<f64>, m: f64, k:
     if k > 0 { lemma_exp_prefix(st, a, b, m, k - 1); }
 }"""),
         dict(file="src/solve/vanilla.rs", path="impl Add for &mut f64",
-             ghost_members="    #[verifier::prophetic]\n    open spec fn added(self, other: f64) -> bool { *final(self) == fadd(*self, other) }",
-             members=[dict(path="fn add", obligation="C08.V.recurse_player.add_item", entry="broadcast use fl;\nproof { ax_obeys(); }")]),
+             ghost_members="    #[verifier::prophetic]\n    open spec fn added(self, other: f64) -> bool { rv(*final(self)) == rv(*self) + rv(other) }",
+             members=[dict(path="fn add", obligation="C08.V.recurse_player.add_item", entry="broadcast use fl; broadcast use ideal;\nproof { ax_obeys(); ax_rv_lits(); }")]),
         dict(file="src/solve/vanilla.rs", path="fn recurse_player", ret="out", obligation="C08.V.recurse_player.update", n_loops=1,
              rules=["R3m", "R3", "R1", "R8", "R9", "R10"],
              sig_subst=[(r"cum_regret: impl IntoIterator<Item = impl Add>,", "cum_regret: &mut [f64],", "TYPE-SUBST cum_regret := &mut [f64]"),
@@ -60,15 +68,15 @@ pub proof fn lemma_exp_prefix(st: Seq<f64>, a: Seq<f64>, b: Seq<f64>, m: f64, k:
     exists|us: Seq<f64>| us.len() == player.actions@.len()
         // u_a is what the continuation returned for action a, called with the reach vector in which
         // ONLY the acting player's entry is multiplied by sigma_a
-        && (forall|a: int| 0 <= a < us.len() ==> rec.ensures((&#[trigger] player.actions@[a], pnext_spec(player.num, p_player, strat@[a])), us[a]))
+        && (forall|a: int| 0 <= a < us.len() ==> #[trigger] called_ok(rec, player.actions@[a], player.num, p_player, strat@[a], us[a]))
         // every action's cumulative regret receives u_a times the counterfactual weight
-        && (forall|a: int| 0 <= a < us.len() ==> #[trigger] final(cum_regret)@[a] == fadd(old(cum_regret)@[a], fmul(us[a], mult_spec(player.num, p_chance, p_player))))
+        && (forall|a: int| 0 <= a < us.len() ==> rv(#[trigger] final(cum_regret)@[a]) == rv(old(cum_regret)@[a]) + rv(us[a]) * mult_spec(player.num, p_chance, p_player))
         // returned: (sum_a sigma_a u_a, sum_a u_a mult sigma_a)
-        && out.0 == exp_one(strat@, us, us.len() as int)
-        && out.1 == exp_cf(strat@, us, mult_spec(player.num, p_chance, p_player), us.len() as int), // @ob C08.V.recurse_player.update""",
-             entry="""broadcast use fl;
+        && rv(out.0) == exp_one(strat@, us, us.len() as int)
+        && rv(out.1) == exp_cf(strat@, us, mult_spec(player.num, p_chance, p_player), us.len() as int), // @ob C08.V.recurse_player.update""",
+             entry="""broadcast use fl; broadcast use ideal;
 proof {
-    ax_obeys();
+    ax_obeys(); ax_rv_lits();
     assume(player.actions@.len() == strat@.len() && strat@.len() == cum_regret@.len());
     assume(forall|n: &Node, p: [f64; 2]| rec.requires((n, p)));
 }
@@ -78,34 +86,40 @@ let ghost c0 = cum_regret@;
 let ghost acts = player.actions@;
 let ghost mut us: Seq<f64> = Seq::empty();""",
              loops={0: dict(kind="for", binder="it",
-                            before="proof { assert(mult == mult_spec(player.num, p_chance, p_player)); }",
+                            before="proof {\n    assert((0real - rv(p_player[0])) * rv(p_chance) == 0real - rv(p_player[0]) * rv(p_chance)) by(nonlinear_arith);\n    assert(rv(p_chance) * (0real - rv(p_player[0])) == 0real - rv(p_player[0]) * rv(p_chance)) by(nonlinear_arith);\n    assert(rv(p_player[1]) * rv(p_chance) == rv(p_chance) * rv(p_player[1])) by(nonlinear_arith);\n    assert(rv(mult) == mult_spec(player.num, p_chance, p_player));\n}\nlet ghost ms = mult_spec(player.num, p_chance, p_player);",
                             head="""invariant
     it.snapshot@.remaining().len() == n, n == acts.len(), n == st.len(), n == c0.len(),
     0 <= it.index@ <= n, us.len() == it.index@,
-    mult == mult_spec(player.num, p_chance, p_player),
+    rv(mult) == ms, ms == mult_spec(player.num, p_chance, p_player),
     zip_iter_snd(it.snapshot@).remaining().len() == n,
     forall|i: int| 0 <= i < n ==> (it.snapshot@.remaining()[i]).1 == #[trigger] zip_iter_snd(it.snapshot@).remaining()[i],
     forall|i: int| 0 <= i < n ==> *((#[trigger] it.snapshot@.remaining()[i]).0).0 == acts[i]
         && *((it.snapshot@.remaining()[i]).0).1 == st[i] && *(it.snapshot@.remaining()[i]).1 == c0[i],
     forall|nd: &Node, p: [f64; 2]| rec.requires((nd, p)),
-    forall|i: int| 0 <= i < it.index@ ==> rec.ensures((&#[trigger] acts[i], pnext_spec(player.num, p_player, st[i])), us[i]),
-    forall|i: int| 0 <= i < it.index@ ==> *final((#[trigger] it.snapshot@.remaining()[i]).1) == fadd(c0[i], fmul(us[i], mult)),
-    expected_one == exp_one(st, us, it.index@ as int),
-    expected == exp_cf(st, us, mult, it.index@ as int),
+    forall|i: int| 0 <= i < it.index@ ==> #[trigger] called_ok(rec, acts[i], player.num, p_player, st[i], us[i]),
+    forall|i: int| 0 <= i < it.index@ ==> rv(*final((#[trigger] it.snapshot@.remaining()[i]).1)) == rv(c0[i]) + rv(us[i]) * ms,
+    rv(expected_one) == exp_one(st, us, it.index@ as int),
+    rv(expected) == exp_cf(st, us, ms, it.index@ as int),
 ensures
-    forall|i: int| 0 <= i < n ==> *final(#[trigger] zip_iter_snd(it.snapshot@).remaining()[i]) == fadd(c0[i], fmul(us[i], mult)),""",
-                            body_start="broadcast use fl;\nproof { ax_obeys(); }\nlet ghost us0 = us;",
+    forall|i: int| 0 <= i < n ==> rv(*final(#[trigger] zip_iter_snd(it.snapshot@).remaining()[i])) == rv(c0[i]) + rv(us[i]) * ms,""",
+                            body_start="broadcast use fl; broadcast use ideal;\nproof { ax_obeys(); ax_rv_lits(); }\nlet ghost us0 = us;",
                             body_end="""proof {
+    assert(rv(util_one) * rv(*prob) == rv(*prob) * rv(util_one)) by(nonlinear_arith);
+    assert(rv(util) * rv(*prob) == rv(*prob) * rv(util)) by(nonlinear_arith);
+    assert(rv(mult) * rv(util_one) == rv(util_one) * rv(mult)) by(nonlinear_arith);
     us = us0.push(util_one);
     assert(forall|i: int| 0 <= i < us0.len() ==> us[i] == us0[i]);
-    lemma_exp_prefix(st, us0, us, mult, us0.len() as int);
-    assert(p_next == pnext_spec(player.num, p_player, *prob));
+    lemma_exp_prefix(st, us0, us, ms, us0.len() as int);
+    assert(pnext_ok(player.num, p_player, *prob, p_next));
+    assert(rec.ensures((next, p_next), util_one));
+    assert(called_ok(rec, *next, player.num, p_player, *prob, util_one));
+    assert(rv(util) * rv(*prob) == rv(util_one) * ms * rv(*prob)) by(nonlinear_arith) requires rv(util) == rv(util_one) * ms;
 }""",
                             after="""proof {
     let w = us;
     assert(w.len() == player.actions@.len() && acts == player.actions@ && st == strat@);
-    assert(forall|a: int| 0 <= a < w.len() ==> rec.ensures((&#[trigger] player.actions@[a], pnext_spec(player.num, p_player, strat@[a])), w[a]));
-    assert(forall|a: int| 0 <= a < w.len() ==> #[trigger] cum_regret@[a] == fadd(c0[a], fmul(w[a], mult)));
+    assert(forall|a: int| 0 <= a < w.len() ==> #[trigger] called_ok(rec, player.actions@[a], player.num, p_player, strat@[a], w[a]));
+    assert(forall|a: int| 0 <= a < w.len() ==> rv(#[trigger] cum_regret@[a]) == rv(c0[a]) + rv(w[a]) * ms);
 }""")},
         ),
     ],
